@@ -9,7 +9,7 @@ pub fn family() -> Family {
 
 fn corpus() -> Vec<&'static str> {
     vec!["a", "  foo", "(a b)", "(a\n b)", "'x", "#(1 2)", "(a . b)", "(a (b c) . d)", "#u8(1 2)", "`(a ,b ,@c)", ",@x", "'(a 'b)", "\"str\\n\" #\\x", "(1.5 -2 #t)",
-         "\u{3bb} (\u{3bb}x \"\u{3bb}\" y)", "\"\u{e9}\" z", "(a . 'b)", "[a b]", "#(a #(b) (c))", "(a ; c\n b)\n(c\n\n d)", "(.a)", "(a . (b c))", "((a) (b))", "  ( a )  b", "(,@a)", "'#(1)", "''a", "(a\r b)\r\n(c\r d)", "a\r\nb", "(doc \"first\nsecond\" tail)", "\"a\n\nb\" x\n(y \"\n\")", "(a\n,\nb)", "sym\n12\n:k\n"]
+         "\u{3bb} (\u{3bb}x \"\u{3bb}\" y)", "\"\u{e9}\" z", "(a . 'b)", "[a b]", "#(a #(b) (c))", "(a ; c\n b)\n(c\n\n d)", "(.a)", "(a . (b c))", "((a) (b))", "  ( a )  b", "(,@a)", "'#(1)", "''a", "(a\r b)\r\n(c\r d)", "a\r\nb", "(doc \"first\nsecond\" tail)", "\"a\n\nb\" x\n(y \"\n\")", "(a\n,\nb)", "sym\n12\n:k\n", "\n\n  (a b)", "  \n (x\n y)  \n", "\t\"s\"", " ; c\n  (a . b) ", "\r\n\r\n  #(1\r\n 2)", "\n#\\a", "   'q   "]
 }
 fn optsets() -> Vec<Options> { vec![Options::default(), Options::elisp()] }
 
@@ -92,6 +92,14 @@ fn check(case: &str) -> Option<String> {
     let mut ps = Parser::from_str_custom(text, o.clone());
     let mut pb = Parser::from_slice_custom(input, o.clone());
     let mut pr = Parser::from_reader_custom(input, o.clone());
+    // the single-datum entry points of the datum module, all sources: same spans as the parser's first datum, and they delimit the datum's text
+    let first = Parser::from_str_custom(text, o.clone()).next_datum().ok().flatten().map(|d| spans(&d));
+    for (name, got) in [("datum::from_str_custom", lexpr::datum::from_str_custom(text, o.clone())), ("datum::from_slice_custom", lexpr::datum::from_slice_custom(input, o.clone())), ("datum::from_reader_custom", lexpr::datum::from_reader_custom(input, o.clone()))] {
+        if let Ok(d) = got {
+            if let Err(m) = check_ref(input, &o, d.as_ref(), (0, input.len()), false) { return Some(format!("{:?} via {}: {}", text, name, m)); }
+            if Some(spans(&d)) != first { return Some(format!("{:?}: spans from {} {:?} differ from Parser::from_str(..).next_datum() {:?}", text, name, spans(&d), first)); }
+        }
+    }
     let mut last = 0usize;
     loop {
         let d = match ps.next_datum() { Ok(Some(d)) => d, _ => return None };
